@@ -1792,6 +1792,10 @@ class ObjectIdentifier(Atomic):
         return (objType, objInstance)
 
     def set_long(self, value):
+        # it has to fit in 32 bits
+        if (value < 0) or (value > 0xFFFFFFFF):
+            raise ValueError("object identifier out of range")
+
         # suck out the type
         objType = (value >> 22) & 0x03FF
 
